@@ -24,6 +24,10 @@ pub struct RunSpec {
     /// it is not a completed run, so nothing the APIs show may change
     #[serde(default)]
     pub abort: u8,
+    /// a run with nothing to do: 1 = a sequence that expands to no command, 2 = change-driven run
+    /// right after `checkpoint update -p` (no changed target)
+    #[serde(default)]
+    pub nothing_to_do: u8,
 }
 
 #[derive(Debug, Clone, Serialize, Deserialize)]
@@ -46,6 +50,7 @@ pub fn strategy() -> impl Strategy<Value = Case> {
                 vec((any::<u16>(), any::<u16>()), 0..=1),
                 1usize..=3,
                 prop_oneof![5 => Just(0u8), 1 => Just(1u8), 1 => Just(2u8)],
+                prop_oneof![6 => Just(0u8), 1 => Just(1u8), 1 => Just(2u8)],
             );
             (Just(m), Just(nt), vec(run, 1..=(3 * m + 3)))
         })
@@ -53,7 +58,7 @@ pub fn strategy() -> impl Strategy<Value = Case> {
             let tname = |i: usize| format!("t{}", i);
             let runs = rruns
                 .into_iter()
-                .map(|(cmds, tsel, fail, qe, qo, lines, abort)| {
+                .map(|(cmds, tsel, fail, qe, qo, lines, abort, nothing_to_do)| {
                     let commands: Vec<String> = cmds.iter().map(|s| s.to_string()).collect();
                     let mut targets: Vec<String> = tsel.iter().map(|&i| tname(i)).collect();
                     let all: Vec<String> = (0..nt).map(tname).collect();
@@ -78,7 +83,8 @@ pub fn strategy() -> impl Strategy<Value = Case> {
                         quiet_err,
                         quiet_out,
                         lines,
-                        abort,
+                        abort: if nothing_to_do != 0 { 0 } else { abort },
+                        nothing_to_do,
                     }
                 })
                 .collect();
@@ -125,10 +131,18 @@ pub fn check(case: &Case, w: usize) -> CheckResult {
     let cfg = ConfigSpec {
         targets: (0..case.ntargets).map(|i| TargetSpec::new(&format!("t{}", i))).collect(),
         max_retained_runs: Some(case.max_retained),
+        sequences: [("nothing".to_string(), vec![])].into_iter().collect(),
         ..Default::default()
     };
     let mut env = Env::new(w);
     env.install_config(&cfg);
+    let uses_git = case.runs.iter().any(|r| r.nothing_to_do == 2);
+    if uses_git {
+        env.write_file(".gitignore", b"monorail-out/\n");
+        if let Err(e) = env.git_init().and_then(|_| env.git_ok(&["add", "-A"]).map(|_| ())).and_then(|_| env.git_ok(&["commit", "-q", "-m", "init"]).map(|_| ())) {
+            return inconclusive(e);
+        }
+    }
     for c in CMDS {
         for t in &cfg.targets {
             env.install_command(&bb::simple_cmd_file(&cfg, &t.path, c), true);
@@ -138,6 +152,7 @@ pub fn check(case: &Case, w: usize) -> CheckResult {
     let mut history: Vec<(String, Value, Logs, BTreeSet<(String, String)>)> = vec![];
     let mut slot_reuse_differs = false;
     let mut aborted = 0;
+    let mut nothing_runs = 0;
     let mut tainted: BTreeSet<String> = BTreeSet::new();
     for (k, r) in case.runs.iter().enumerate() {
         let pool: Vec<String> = if r.targets.is_empty() { cfg.target_paths() } else { r.targets.clone() };
@@ -178,6 +193,21 @@ pub fn check(case: &Case, w: usize) -> CheckResult {
         if !r.targets.is_empty() {
             args.push("-t".into());
             args.extend(r.targets.iter().cloned());
+        }
+        let mut had_checkpoint = false;
+        if r.nothing_to_do == 1 {
+            args = vec!["run".into(), "-s".into(), "nothing".into()];
+        } else if r.nothing_to_do == 2 {
+            // commit everything the earlier runs may have left, checkpoint, and run without -t
+            let _ = env.git_ok(&["add", "-A"]);
+            let _ = env.git_ok(&["commit", "-q", "--allow-empty", "-m", "sync"]);
+            let o = env.mr(&["checkpoint", "update", "-p"]);
+            if !o.ok() {
+                return inconclusive(format!("checkpoint update failed: {}", o.brief()));
+            }
+            had_checkpoint = true;
+            args = vec!["run".into(), "-c".into()];
+            args.extend(r.commands.iter().cloned());
         }
         if r.abort != 0 && case.max_retained >= 2 {
             // an invocation that must fail before completing (with a single slot the aborted
@@ -242,7 +272,13 @@ pub fn check(case: &Case, w: usize) -> CheckResult {
             return inconclusive(format!("run {} produced no JSON: {}", k, out.brief()));
         };
         let run = bb::parse_run(&doc).map_err(|e| Violation::new("c12.output", e))?;
-        if run.failed != r.fail.is_some() {
+        if r.nothing_to_do != 0 {
+            let listed: usize = run.results.iter().map(|c| c.1.iter().map(|g| g.len()).sum::<usize>()).sum();
+            if listed != 0 || run.failed {
+                return inconclusive(format!("a run with nothing to do listed {} targets", listed));
+            }
+            nothing_runs += 1;
+        } else if run.failed != r.fail.is_some() {
             return inconclusive(format!("run {}: failed={} unexpected", k, run.failed));
         }
         let slot = std::path::Path::new(&run.run_path)
@@ -271,6 +307,9 @@ pub fn check(case: &Case, w: usize) -> CheckResult {
                     }
                 }
             }
+        }
+        if had_checkpoint {
+            let _ = env.mr(&["checkpoint", "delete"]);
         }
         if let Some(prev) = history.iter().rev().find(|h| h.0 == slot) {
             if prev.3 != pairs {
@@ -352,6 +391,7 @@ pub fn check(case: &Case, w: usize) -> CheckResult {
         .class_if(case.runs.iter().any(|r| r.fail.is_some()), "has-failed-run")
         .class_if(slot_reuse_differs, "slot-reuse-with-different-tasks")
         .class_if(aborted > 0, "aborted-invocations")
+        .class_if(nothing_runs > 0, "runs-with-nothing-to-do")
         .inv(env.invocations))
 }
 
@@ -365,7 +405,7 @@ fn blocks_brief(l: &Logs) -> Value {
 
 pub fn run(ctx: &mut Ctx) {
     ctx.rule = "max_retained_runs M in 1..5 x a history of 1..3M+3 runs, each with its own command subset, target selection, per-task output tagged with the run number, \
-silent streams, (25%) one failing task, and (2 in 7) invocations that abort before completing (malformed argmap file, undefined sequence) after which everything must still show the last completed run. model: the ids in use and, per id, the document and logs of its latest occupant. after every run: `result show` == printed document \
+silent streams, (25%) one failing task, and (2 in 8) completed runs that have nothing to do (a sequence expanding to no command; a change-driven run right after `checkpoint update -p`), and (2 in 7) invocations that abort before completing (malformed argmap file, undefined sequence) after which everything must still show the last completed run. model: the ids in use and, per id, the document and logs of its latest occupant. after every run: `result show` == printed document \
 (modulo timestamp); `log show` == exactly that run's non-empty logs as a set of (header, bytes) blocks; `log show --id` for each of the last min(k,M) runs; <= M ids and directories. \
 non-trivial = history longer than M in which two runs sharing an id differ in their (command,target) sets; distinct by SHA-256"
         .to_string();
